@@ -174,7 +174,7 @@ Definition remove (s : sstate) : sstate * list action :=
   let a2 := [Fsm Idle Idle] in
   match cp s with
   | M0 | MN | MR => (with_cp s1 MP, a1 ++ a2)   (* the loop leaves at its next step (LoopExit): it finds no proto, _reset() *)
-  | W | ST => (with_cp s1 ST, a1 ++ a2)
+  | W | ST => (s1, a1 ++ a2)                     (* W: run() returns at its next look at _restart - unless a teardown sets it again first *)
   | _ => (s1, a1 ++ a2)                          (* CN RO RK MP: the coroutine goes on until it notices *)
   end.
 
